@@ -20,7 +20,7 @@ EXPLANATION = (
     " C15-a also tabulates HuffmanDecoder::decode_next by the decisions its paths make: the only clean end is fetch_value's Ok(None); a code without a table entry (EOS) is an error; symbols and sub-tables come from the entry found.")
 # every anchor of these rules lives in the h3 crate: thorough tier repeats them on the feature-less build
 EXTRA_CONFIGS = ["h3-plain"]
-RULES = "C15-a Huffman tables vs RFC 7541 App. B, decode_next row table (A11/A3); C15-b integer accumulator bound and truncation (A6/A15); C15-c codec entry points (A11); C15-d end-of-input padding mask evaluated over count 1..8 (extracted-expression evaluation)"
+RULES = "C15-a Huffman tables vs RFC 7541 App. B, decode_next row table (A11/A3); C15-b integer accumulator bound and truncation (A6/A15); C15-c codec entry points (A11); C15-d end-of-input padding mask evaluated over count 1..8 (extracted-expression evaluation); C15-c also: declared length, H flag and written octets of string encode belong to the same form; Huffman errors propagate"
 
 HERE = os.path.dirname(os.path.dirname(os.path.abspath(__file__)))
 REF = json.load(open(os.path.join(HERE, "ref", "rfc7541_huffman_lengths.json")))
